@@ -12,6 +12,11 @@
 // of headers that re-use each other's votes, on one Server instance: the
 // verdict must be the stateless one).
 //
+// Borrowed credentials (forge.go borrowVals, history.go Bor/CBor + live vote messages): a vote whose sortition proof
+// was made by ANOTHER member's key, next to / before / after / without that member's genuine vote, in one header
+// and across the verifier's history.  The quorum function and protocol versions with other committee sizes than
+// the shipped ones: quorum.go.
+//
 // A fourth dimension (known.go): what the verifier's CHAIN already stores at
 // the header's height (nothing / the honest header with the same hash / the
 // very header / a sibling; canonical or side block; with a child) × every
@@ -23,8 +28,10 @@ package c01
 import (
 	"encoding/json"
 	"fmt"
+	"os"
 	"regexp"
 	"sort"
+	"strconv"
 	"strings"
 	"sync"
 	"sync/atomic"
@@ -88,6 +95,10 @@ type witness struct {
 	rank  string
 	head  string   // signature prefix
 	parts []string // root causes (joint signature = head + parts joined)
+	// quorumOnly: a scaled-version fixture and a header in which nothing but the vote subsets (and an honest re-vote at
+	// the next round index) deviates: too little weight was enough, or enough was not; when the exhaustive comparison of
+	// the quorum function reports its own violation this is the same defect seen through the verifier
+	quorumOnly bool
 }
 
 // witnesses is shared by all fixtures of a run.
@@ -104,6 +115,7 @@ type ctx struct {
 	ws *witnesses
 
 	quickTargets bool // quick tier: vote mutations target the first and the last voter only
+	everyEntry   bool // single-deviation headers go through every entry point of the configuration (header batches included)
 }
 
 func runPath(name string, f func() error) pathRes {
@@ -155,6 +167,14 @@ func (x *ctx) eval(s Spec, allPaths bool) (*evalRes, error) {
 				e.Paths = append(e.Paths, p)
 			} else {
 				e.Paths = append(e.Paths, runPath("VerifySideChainHeader", func() error { return VerifySideChain(c, f.Header) }))
+				// (not after a panic: VerifyHeaders verifies in a goroutine of its own, where a panic of the verifier cannot
+				// be recovered and would end the run instead of being reported)
+				if x.everyEntry && e.panicked() == nil {
+					for _, ep := range c.entries(true)[3:] {
+						ep := ep
+						e.Paths = append(e.Paths, runPath(ep.Name, func() error { return ep.Run(c.Server, c, chain, f.Header) }))
+					}
+				}
 			}
 		}
 		e.O = Oracle(c, f)
@@ -183,7 +203,15 @@ var mutSig = map[string]string{
 	"house":         "house member's vote counted",
 	"offline":       "offline member's vote counted",
 	"zeroStake":     "zero-stake member's vote counted",
+	// borrowed credentials: one defect (a credential is accepted under a key that did not make it) whatever the position
+	// of the entry and the seat count it declares
+	"borrowAfter.L": borrowSig, "borrowAfter.O": borrowSig, "borrowAfter.R": borrowSig,
+	"borrowBefore.L": borrowSig, "borrowBefore.O": borrowSig, "borrowBefore.R": borrowSig,
+	"borrowStep.R":  "vote carrying another member's sortition proof of another step counted",
+	"borrowIndex.R": "vote carrying another member's sortition proof of another round index counted",
 }
+
+const borrowSig = "vote carrying another member's sortition proof counted"
 var aggSig = map[string]string{
 	"distinct": "aggregate over distinct signers only", "dropOne": "aggregate signature not covering every counted vote",
 	"otherHash": "aggregate signature over another payload", "infinity": "infinity-point aggregate signature",
@@ -197,6 +225,7 @@ var propSig = map[string]string{
 	"j0": "proposer credential with j=0", "wrongPriority": "proposer with wrong priority", "subusers+1": "proposer with inflated seat count",
 	"nonMember": "proposer that is not a member", "house": "house member as proposer", "offline": "offline member as proposer",
 	"otherIndexProof": "proposer proof for another round index",
+	"borrowedProof":   "proposer credential made by another member's key",
 }
 
 func thrSig(name, v string, proto uint64) string {
@@ -317,6 +346,12 @@ func popcount(m int) int {
 // dimensions, then fewest listed votes, then fewest true seats behind them,
 // then smallest key): the replay file is the same on every run.
 func (x *ctx) offer(head string, parts []string, s Spec, seats uint32, detail string) {
+	scaled := false
+	if _, scaled = scaledSize(x.c.Version); scaled {
+		// a fixture of the harness's own protocol versions: what fails there and passes on the shipped versions
+		// depends on the committee size
+		head = scaledTag + head
+	}
 	sig := head + strings.Join(parts, " + ")
 	rank := fmt.Sprintf("%02d|%02d|%08d|%s", x.deviations(s), popcount(s.Subset)+popcount(s.CertSub), seats, s.Key())
 	x.ws.mu.Lock()
@@ -324,8 +359,12 @@ func (x *ctx) offer(head string, parts []string, s Spec, seats uint32, detail st
 	if w, ok := x.ws.best[sig]; ok && w.rank <= rank {
 		return
 	}
-	x.ws.best[sig] = &witness{rank: rank, head: head, parts: parts, v: mc.Violation{Sig: sig, Config: x.c.Name, Input: s, Detail: detail}}
+	x.ws.best[sig] = &witness{rank: rank, head: head, parts: parts, v: mc.Violation{Sig: sig, Config: x.c.Name, Input: s, Detail: detail},
+		quorumOnly: scaled && s.honestShaped()}
 }
+
+const scaledTag = "[protocol version with committee sizes other than the shipped 2000/4000] "
+
 
 // offerRaw is offer for the dimensions whose input is not a Spec (look-back, history).  group is the
 // de-duplication key ("" = the signature itself): one witness — the one with the smallest rank — is kept per group
@@ -354,8 +393,18 @@ func (ws *witnesses) flush(r *mc.Run) {
 		sigs = append(sigs, s)
 	}
 	sort.Strings(sigs)
+	quorumFn := false
+	for _, s := range sigs {
+		if strings.HasPrefix(s, "quorum function") {
+			quorumFn = true
+		}
+	}
 	for _, s := range sigs {
 		w := ws.best[s]
+		if w.quorumOnly && quorumFn {
+			r.Count("scaled-version sub-quorum acceptances folded into the quorum-function violation", 1)
+			continue
+		}
 		if len(w.parts) > 1 {
 			alone := true
 			for _, p := range w.parts {
@@ -455,6 +504,19 @@ func (x *ctx) check(s Spec, allPaths bool) {
 			r.Count("subset_weight_above_quorum", 1)
 			if acc {
 				r.Count("subset_above_quorum_accepted", 1)
+			}
+		}
+	}
+	// borrowed credentials: the cases in which the borrowed entry would decide the quorum if it were counted
+	if b := e.F.Borrow; b != nil && x.deviations(s) == 1 {
+		where := "borrowed alone (the lender's genuine vote is not listed)"
+		if b.LenderListed {
+			where = "listed next to the lender's genuine vote"
+		}
+		if e.O.Weight < e.O.Quorum && uint64(e.O.Weight)+uint64(b.Votes) >= uint64(e.O.Quorum) {
+			r.Count("borrowed_credential_would_decide_the_quorum: "+where, 1)
+			if !acc {
+				r.Count("borrowed_credential_would_decide_the_quorum: rejected", 1)
 			}
 		}
 	}
@@ -729,6 +791,17 @@ func (x *ctx) explore(tier string) {
 			x.product([]dim{ds[i], ds[j]}, seen, &jobs)
 		}
 	}
+	// (2b) borrowed credentials (values of the mutation dimension of their own): full product with the vote subset —
+	// which decides whether the lender's genuine vote is listed too and whether the borrowed entry would tip the quorum —
+	// [thorough: and with the aggregate, the round index of the vote record and the declared ValidatorThreshold]
+	bv := append([]string{""}, borrowVals(len(x.c.Voters), x.quickTargets)...)
+	bd := dim{"borrowed credential", len(bv), func(s *Spec, i int) { s.Mut = bv[i] }}
+	x.product([]dim{ds[0], bd}, seen, &jobs)
+	if tier == "thorough" {
+		for _, k := range []int{5, 6, 2} {
+			x.product([]dim{bd, ds[k]}, seen, &jobs)
+		}
+	}
 	if tier == "thorough" && x.c.Version == params.YouCurrentVersion && params.NetworkId() == params.NetworkIdForTestCase {
 		// (3) triples around the vote list (current version; the versions share their consensus parameters)
 		x.product([]dim{ds[0], ds[1], ds[2]}, seen, &jobs)
@@ -739,10 +812,29 @@ func (x *ctx) explore(tier string) {
 }
 
 type runCfg struct {
-	net  uint64
-	cfg  string
-	ver  params.YouVersion
-	cert bool
+	net   uint64
+	cfg   string
+	ver   params.YouVersion
+	cert  bool
+	scale uint64 // != 0: the harness's protocol version with ValidatorThreshold = scale, CertValThreshold = 2·scale-1 (quorum.go)
+}
+
+// scaledPlan: protocol versions with other committee sizes (quorum.go): the quorum boundary of the whale
+// configurations (b: the whale alone weighs exactly the quorum, b-: it stays just below it) and the certificate
+// scenario of four equal members.  Quick: the sizes below a multiple of 1000 and half-way between two (999, 1999,
+// 2500), certificate scenario at 2500 / 4999.
+func scaledPlan(net uint64, quick bool) []runCfg {
+	var plan []runCfg
+	for _, T := range scaledSizes {
+		if quick && T%1000 == 1 {
+			continue
+		}
+		plan = append(plan, runCfg{net, "b-", ScaledVersion(T), false, T}, runCfg{net, "b", ScaledVersion(T), false, T})
+		if !quick || T == 2500 {
+			plan = append(plan, runCfg{net, "a", ScaledVersion(T), true, T})
+		}
+	}
+	return plan
 }
 
 // exploreBoundary: the vote-subset dimension alone and paired with the
@@ -761,40 +853,54 @@ func (x *ctx) exploreBoundary() {
 func Run(r *mc.Run) {
 	Quiet()
 	r.Level = "exploration"
-	r.Rule = "every forged header is a value vector over the dimensions (vote subset of the entitled members; one vote mutation: duplicate ×2/×3, replayed credential of another round index/step/round, signature over another hash, weight +1/×2/2^32-1/0 per target voter, or a non-member vote: out-of-range index/house/offline/zero-stake; header-declared ValidatorThreshold, ProposerThreshold, CertValThreshold ∈ {0,1,10,protocol,×2,2^64-1} with credentials left honest or recomputed under the declared value; aggregate signature ∈ {listed, distinct signers, one dropped, other payload, infinity, empty, undecodable, non-member's}; UconValidators.RoundIndex ∈ {same, other with replayed votes, other with re-votes}; proposer ∈ {honest, j=0, wrong priority, seats+1, non-member, house, offline, proof of another index}); explored per fixture: the full product (subset × ValidatorThreshold × aggregate) + the full product of every pair of dimensions, others honest [+ three triples in thorough]; certificate-round scenario: full product (certificate subset × CertValThreshold declared by the planted look-back header × certificate aggregate) + (precommit subset × certificate subset); each header is built with real keys and given to the real VerifyHeader(seal) (single-deviation headers also to VerifySeal and VerifySideChainHeader; certificate headers also to VerifySeal and VerifyAcHeader) and to the independent quorum calculator; non-trivial = differs from the honest header; distinct = distinct value vectors actually built || LOOK-BACK SEPARATION: in every fixture the stake look-back header, the seed look-back header, the parent, the block itself, every other header (and, certificate rounds, the certificate stake look-back header) commit to DIFFERENT validator sets (other stakes ⇒ other seat counts and other voter indexes, a record without stake in the look-back set has stake elsewhere, one validator exists in that set only) and record different seeds; a case is a header built only from honest building blocks whose proposer credential / precommits / certificate votes are drawn against (set of header X, seed of header Y): full product proposer(X∈5 × Y∈5 × {first entitled record, that set's newcomer}) × precommits(X∈5 × Y∈5) [certificate fixture: + certificate votes (X∈6 × Y∈5) × precommit X; quick tier takes the two planes of the first product there]; each header goes through VerifyHeader, VerifySeal, VerifySideChainHeader, VerifyHeaders with the header alone and VerifyHeaders with SeedLookBack / StakeLookBack / StakeLookBack+3 preceding headers in the batch over a chain that does not have them yet (look-back headers resolved from `parents`) [+ VerifyAcHeader]; exactly one vector is the honest header (must be accepted everywhere), the others are decided by the same calculator (which knows only the protocol's look-back positions) || VERIFIER HISTORY: family of headers re-using material of another header: blocks B1 and B2 of the same proposer for the same (round, index) with different transactions × vote record at the proposal's index / re-voted at the next × credentials of this/the other index × signatures+aggregate over this/the sibling's hash × at this/the other index, + the same hash with one / no precommit [certificate fixture: precommits own/sibling's × certificate signatures over own/sibling's hash × own/other index, + one / no certificate vote]; every sequence of length 1 and 2 over (family × entry points) [quick: entry points equal or one of them VerifyHeader; pairs of two rejectable headers only as the same header twice; last header on B2, the B1 half being its mirror image] and every sequence of length 3 (thorough 4) over a core sub-family × 2 entry points runs on ONE fresh Server; the last verdict of every sequence must equal the calculator's and the verdict of an instance that verified nothing else; a wrong verdict is re-run twice and its history minimised before it is reported" + knownRule
+	r.Rule = "every forged header is a value vector over the dimensions (vote subset of the entitled members; one vote mutation: duplicate ×2/×3, replayed credential of another round index/step/round, signature over another hash, weight +1/×2/2^32-1/0 per target voter, a non-member vote: out-of-range index/house/offline/zero-stake, or a BORROWED CREDENTIAL: for every ordered pair (borrower X [quick: the first or the last member; counts of the lender and recomputed; other step / index from one lender], lender Y) of entitled members X's entry — own voter index, own BLS signature, summed into the aggregate — carries the very proof bytes of Y's genuine vote (or Y's proof of the prevote step / of the next round index) and declares Y's seat count / X's own seat count / the count Y's VRF output yields with X's stake, placed after or before all other entries; whether Y's genuine vote is listed too — borrowed next to the original, before or after it — or not — borrowed alone — is the vote-subset dimension it is paired with; header-declared ValidatorThreshold, ProposerThreshold, CertValThreshold ∈ {0,1,10,protocol,×2,2^64-1} with credentials left honest or recomputed under the declared value; aggregate signature ∈ {listed, distinct signers, one dropped, other payload, infinity, empty, undecodable, non-member's}; UconValidators.RoundIndex ∈ {same, other with replayed votes, other with re-votes}; proposer ∈ {honest, j=0, wrong priority, seats+1, non-member, house, offline, proof of another index, another entitled member's proof of this index with the seat count and priority its output yields with the proposer's stake}); explored per fixture: the full product (subset × ValidatorThreshold × aggregate) + the full product of every pair of dimensions, others honest [+ three triples in thorough]; the borrowed credentials are paired with the vote subset [thorough: also with the aggregate, the round index of the vote record and the declared ValidatorThreshold]; certificate-round scenario: full product (certificate subset × CertValThreshold declared by the planted look-back header × certificate aggregate) + (precommit subset × certificate subset); each header is built with real keys and given to the real VerifyHeader(seal) (single-deviation headers also to VerifySeal and VerifySideChainHeader; certificate headers also to VerifySeal and VerifyAcHeader) and to the independent quorum calculator; non-trivial = differs from the honest header; distinct = distinct value vectors actually built || LOOK-BACK SEPARATION: in every fixture the stake look-back header, the seed look-back header, the parent, the block itself, every other header (and, certificate rounds, the certificate stake look-back header) commit to DIFFERENT validator sets (other stakes ⇒ other seat counts and other voter indexes, a record without stake in the look-back set has stake elsewhere, one validator exists in that set only) and record different seeds; a case is a header built only from honest building blocks whose proposer credential / precommits / certificate votes are drawn against (set of header X, seed of header Y): full product proposer(X∈5 × Y∈5 × {first entitled record, that set's newcomer}) × precommits(X∈5 × Y∈5) [certificate fixture: + certificate votes (X∈6 × Y∈5) × precommit X; quick tier takes the two planes of the first product there]; each header goes through VerifyHeader, VerifySeal, VerifySideChainHeader, VerifyHeaders with the header alone and VerifyHeaders with SeedLookBack / StakeLookBack / StakeLookBack+3 preceding headers in the batch over a chain that does not have them yet (look-back headers resolved from `parents`) [+ VerifyAcHeader]; exactly one vector is the honest header (must be accepted everywhere), the others are decided by the same calculator (which knows only the protocol's look-back positions) || VERIFIER HISTORY: family of headers re-using material of another header: blocks B1 and B2 of the same proposer for the same (round, index) with different transactions × vote record at the proposal's index / re-voted at the next × credentials of this/the other index × signatures+aggregate over this/the sibling's hash × at this/the other index, + the same hash with one / no precommit [certificate fixture: precommits own/sibling's × certificate signatures over own/sibling's hash × own/other index, + one / no certificate vote]; every sequence of length 1 and 2 over (family × entry points) [quick: entry points equal or one of them VerifyHeader; pairs of two rejectable headers only as the same header twice; last header on B2, the B1 half being its mirror image] and every sequence of length 3 (thorough 4) over a core sub-family × 2 entry points runs on ONE fresh Server; the last verdict of every sequence must equal the calculator's and the verdict of an instance that verified nothing else; a wrong verdict is re-run twice and its history minimised before it is reported; the family also contains, on the sibling block, the borrowed-credential headers (every entitled member but the lender — the member with the most seats — lists the lender's proof under its own key with the seat count the lender's output yields with its own stake; the lender's genuine vote absent / listed first [thorough: / listed last]; precommits in the precommit fixture, certificate votes in the certificate fixture), and the block of the fixture's proposer under ANOTHER member's proposer credential together with that member's own honest block, so that every header of the family that lists the lender's genuine vote (that carries the lender's own proposer credential) precedes them on the same Server, and for each of them and the honest header, through every entry point, a sequence that starts with the lender's genuine vote MESSAGE handled by the live vote path (Voter.processVoteMsg -> Server.verifySortition) of the same Server wired as a mining node (hook VerifC03P2NewNode) || QUORUM FUNCTION: ucon.OverThreshold (the function verifyVotes calls for precommits and certificate votes) against the exact integer reference ⌊685·T/1000⌋ / ⌊585·T/1000⌋ for EVERY committee size T = 0..100000 (thorough: 0..5000000) plus the boundary sizes 2^k±3 (k ≤ 33), n·10^e±3 (e = 3..9) and the sizes around the largest committee whose quorum fits a uint32, every weight in {0, 1, q-2..q+2, T-1, T, T+1, 2^32-2, 2^32-1} || SCALED PROTOCOL VERSIONS: the shipped versions all use committee sizes 2000 / 4000; fixtures under versions of the harness with ValidatorThreshold T ∈ {999, 1999, 2500} (thorough: + 1001, 3001) and CertValThreshold 2T-1: whale configurations b (whale alone exactly at the quorum) and b- (just below) with the products (vote subset × aggregate) and (vote subset × round index), every single-deviation header through all 7 entry points (header batches included), and the certificate scenario of four equal members [quick: T = 2500, (precommit subset × certificate subset) + (certificate subset × certificate aggregate); thorough: every T, the whole certificate alphabet]" + knownRule
 	var plan []runCfg
 	tc, mn := uint64(params.NetworkIdForTestCase), uint64(params.MainNetId)
 	if r.Quick() {
-		r.SetBudget(170 * time.Second)
+		r.SetBudget(420 * time.Second)
 		// (c) contains (a) — four equal chamber validators — plus the non-member records: (a) itself is left to thorough
 		for _, n := range []string{"c", "b", "b-"} {
-			plan = append(plan, runCfg{tc, n, params.YouCurrentVersion, false})
+			plan = append(plan, runCfg{tc, n, params.YouCurrentVersion, false, 0})
 		}
-		plan = append(plan, runCfg{tc, "a", params.YouCurrentVersion, true})
+		// the scaled fixtures are cheap (a second each): before the heaviest fixture, which a saturated machine does not
+		// finish within the budget anyway
+		plan = append(plan, scaledPlan(tc, true)...)
+		plan = append(plan, runCfg{tc, "a", params.YouCurrentVersion, true, 0})
 	} else {
 		r.SetBudget(30 * time.Minute)
 		for _, v := range []params.YouVersion{params.YouV5, params.YouV1, params.YouV2, params.YouV3, params.YouV4} {
 			for _, n := range ConfigNames {
-				plan = append(plan, runCfg{tc, n, v, false})
+				plan = append(plan, runCfg{tc, n, v, false, 0})
 			}
 		}
-		plan = append(plan, runCfg{tc, "b-", params.YouCurrentVersion, false})
+		plan = append(plan, runCfg{tc, "b-", params.YouCurrentVersion, false, 0})
 		for _, n := range ConfigNames {
-			plan = append(plan, runCfg{mn, n, params.YouCurrentVersion, false})
+			plan = append(plan, runCfg{mn, n, params.YouCurrentVersion, false, 0})
 		}
+		plan = append(plan, scaledPlan(tc, false)...) // cheap: before the heaviest fixtures
 		for _, n := range ConfigNames {
-			plan = append(plan, runCfg{tc, n, params.YouCurrentVersion, true})
+			plan = append(plan, runCfg{tc, n, params.YouCurrentVersion, true, 0})
 		}
+	}
+
+	// scratch runs on a saturated machine (mutant demonstrations): VERIF_C01_BUDGET_S lifts the internal deadline; the
+	// registered commands never set it
+	if v, err := strconv.Atoi(os.Getenv("VERIF_C01_BUDGET_S")); err == nil && v > 0 {
+		r.SetBudget(time.Duration(v) * time.Second)
 	}
 	r.Assume("cryptographic forgeries (rogue-key BLS aggregation without proof of possession, VRF grinding) are outside an enumerative check")
 	r.Assume("a signature is 'covered by the aggregate' when the aggregate is exactly a sum of listed signers' signatures over hash‖round‖index (forger's ground truth; cross-checked with real BLS verification on every accepted header)")
 	r.Assume("VRF proofs carry a fresh random nonce (real prover), so header bytes differ between runs; VRF outputs, seat counts and verdicts do not")
 	r.Assume("certificate rounds are driven at the verifier seam on sparse synthetic chains (headers only at the look-back positions)")
-	r.Assume("verifier history: a 'fresh instance' is ucon.NewVRFServer (empty BlsVerifier caches); histories are sequences of header verifications only (no mining, no message handling on the same Server)")
+	r.Assume("verifier history: a 'fresh instance' is ucon.NewVRFServer (empty BlsVerifier caches); histories are sequences of header verifications (no mining), plus the sequences that start with ONE vote message — the genuine vote of the member with the most seats — handled by the live vote path of the same Server; state kept in package-level variables of the node is shared by every instance of the process, so for such state only the independent calculator (not the fresh-instance comparison) discriminates")
 	r.Assume("header batches: the headers preceding the header under verification are synthetic chain headers signed by a fixed key and verified without seal check; only the last result of a batch is judged")
+	r.Assume("quorum rule: the quorum of a committee of T seats is ⌊0.685·T⌋ (precommits) / ⌊0.585·T⌋ (certificate votes) — the fraction truncated, as the unchanged code's uint32(float64(T)·fraction) does; where fraction·T is an integer and the IEEE double product falls one ulp short of it the code's quorum is one seat lower: tolerated in the quorum-function comparison (the decision must then equal the software-computed IEEE value of that expression), counted and listed in the evidence; it concerns no shipped committee size and none of the scaled fixtures")
+	r.Assume("scaled protocol versions are entries the harness adds to params.Versions (copy of the current version, ValidatorThreshold = T, CertValThreshold = 2T-1, own version number 1000000+T carried by the fixture's headers); the shipped tables are not modified")
 	fixtures := map[string]interface{}{}
 	ws := &witnesses{best: map[string]*witness{}}
 	defer ws.flush(r)
+	params.InitNetworkId(tc)
+	exploreQuorum(r, ws)
 	for _, p := range plan {
 		if r.Expired() {
 			break
@@ -811,8 +917,11 @@ func Run(r *mc.Run) {
 			r.HarnessError(fmt.Sprintf("config %s/v%d/net%d: %v", p.cfg, p.ver, p.net, err))
 			continue
 		}
-		x := &ctx{r: r, c: c, ws: ws, quickTargets: r.Quick()}
+		x := &ctx{r: r, c: c, ws: ws, quickTargets: r.Quick(), everyEntry: p.scale != 0}
 		name := fmt.Sprintf("net%d/%s/v%d", p.net, p.cfg, p.ver)
+		if p.scale != 0 {
+			name = fmt.Sprintf("net%d/%s/scaled ValidatorThreshold=%d CertValThreshold=%d", p.net, p.cfg, c.CP.ValidatorThreshold, c.CP.CertValThreshold)
+		}
 		if p.cert {
 			name += "/cert"
 		}
@@ -840,7 +949,7 @@ func Run(r *mc.Run) {
 		valid := x.validate()
 		phase("validate")
 		// look-back separation: cheap, and it names the wrong look-back header when the honest header is rejected
-		lbHere := (r.Quick() && p.cfg != "b-") || (!r.Quick() && p.ver == params.YouCurrentVersion)
+		lbHere := p.scale == 0 && ((r.Quick() && p.cfg != "b-") || (!r.Quick() && p.ver == params.YouCurrentVersion))
 		if lbHere && !r.Expired() {
 			x.exploreLB()
 			phase("look-back separation")
@@ -856,7 +965,11 @@ func Run(r *mc.Run) {
 		}
 		if p.cert {
 			var jobs []job
-			for _, s := range x.certSpecs() {
+			specs := x.certSpecs()
+			if p.scale != 0 && r.Quick() {
+				specs = x.certBoundarySpecs()
+			}
+			for _, s := range specs {
 				jobs = append(jobs, job{s, true})
 			}
 			x.run(jobs)
@@ -866,6 +979,9 @@ func Run(r *mc.Run) {
 					x.r.Count("cert: planted_header_with_forged_CertValThreshold_accepted", 1)
 				}
 			}
+		} else if p.scale != 0 {
+			// the quorum boundary through every entry point
+			x.exploreBoundary()
 		} else if p.cfg == "b-" {
 			if r.Quick() {
 				x.exploreBoundary()
@@ -934,6 +1050,9 @@ func Replay(r *mc.Run, v *mc.Violation) {
 	case kindKnown:
 		replayKnown(r, v, bs)
 		return
+	case kindQuorum:
+		replayQuorum(r, v, bs)
+		return
 	}
 	var s Spec
 	if err := json.Unmarshal(bs, &s); err != nil {
@@ -953,6 +1072,7 @@ func Replay(r *mc.Run, v *mc.Violation) {
 		return
 	}
 	x := &ctx{r: r, c: c, ws: &witnesses{best: map[string]*witness{}}}
+	_, x.everyEntry = scaledSize(c.Version)
 	if !x.validate() {
 		fmt.Println("fixture invalid")
 		return
